@@ -260,6 +260,8 @@ pub fn run_unit(seed: u64) -> (Vec<AltViol>, u64) {
         let hb = SimHashBuilder::new(*rng.pick(&[HashMode::Good, HashMode::Const, HashMode::Ident]), rng.next_u64());
         let cap = rng.below(20) as usize;
         let name: &'static str;
+        let r = std::panic::catch_unwind(std::panic::AssertUnwindSafe(|| -> &'static str {
+        let name: &'static str;
         match variant {
             0 => {
                 name = "LruCache<SimKey, u64> (value without drop glue)";
@@ -300,6 +302,19 @@ pub fn run_unit(seed: u64) -> (Vec<AltViol>, u64) {
                 history::<u32, u64, _>(name, LruCache::with_hasher(usize::MAX, hb), k_limit, &mut rng, &mut out);
             }
         }
+        name
+        }));
+        name = match r {
+            Ok(n) => n,
+            Err(e) => {
+                let msg = e.downcast_ref::<String>().cloned().or_else(|| e.downcast_ref::<&str>().map(|s| s.to_string())).unwrap_or_else(|| "panic".into());
+                if out.len() < 4 {
+                    let props = if msg.contains("overflow") { C01 | C02 } else { C04 | C07 };
+                    out.push(AltViol { props, class: "alt-types-panic", msg: format!("alternative instantiation {}: the cache's own code panicked: {}", variant, msg) });
+                }
+                "alternative instantiation (panicked)"
+            }
+        };
         runs += 1;
         clear_events();
         for m in take_viol() {
